@@ -153,6 +153,10 @@ pub struct RunCfg {
     /// force; `Act::Yield` ends a task poll.
     #[serde(default)]
     pub coop: bool,
+    /// The interrupt sender is dropped right after the signal has been sent (a
+    /// one-shot ctrl-c task that exits).
+    #[serde(default)]
+    pub drop_sender: bool,
 }
 
 impl RunCfg {
@@ -275,7 +279,13 @@ pub fn decode_spec(t: &mut Tape, p: &Profile) -> GraphSpec {
         t.below(9)
     };
     // access declarations
-    let n_types = 1 + t.below(N_TYPES as usize) as u8;
+    let many_types = !wide && t.chance(1, 40);
+    let n_types = if many_types {
+        // more data types than fit in a 64-bit mask / an inline small vector
+        65 + t.below((crate::model::N_TYPES_MAX - 64) as usize) as u8
+    } else {
+        1 + t.below(N_TYPES as usize) as u8
+    };
     let den = if wide {
         [40usize, 12, 40, 80][t.below(4)]
     } else {
@@ -314,7 +324,18 @@ pub fn decode_spec(t: &mut Tape, p: &Profile) -> GraphSpec {
     }
     let mut edges: Vec<(usize, usize, Kind)> = Vec::new();
     if n >= 2 {
-        let variant = if huge { 1 + t.below(2) } else if wide { t.below(4) } else { 0 };
+        let variant = if huge { 1 + t.below(3) } else if wide { t.below(5) } else { 0 };
+        if wide && (variant == 3 && huge || variant == 4) {
+            // data-only fan-in / fan-out: every function reads type 0 except one
+            // writer (last or first in insertion order); no user edges at all
+            let writer = if t.chance(1, 2) { n - 1 } else { 0 };
+            for f in fns.iter_mut() {
+                f.reads = vec![0];
+                f.writes = vec![];
+            }
+            fns[writer].reads = vec![];
+            fns[writer].writes = vec![0];
+        } else
         if wide && variant == 1 {
             // fan-out: one hub before everyone (second layer of n-1 functions becomes ready at once)
             let hub = t.below(n);
@@ -349,11 +370,35 @@ pub fn decode_spec(t: &mut Tape, p: &Profile) -> GraphSpec {
             }
         }
     }
-    let mut spec = GraphSpec { fns, edges };
+    // occasionally a batch call after the single ones: it may repeat an existing
+    // pair and may contain a cycle-closing pair, which the builder must reject
+    // without touching the edges accepted earlier
+    let mut batches: Vec<(Vec<(usize, usize)>, Kind)> = vec![];
+    if !wide && n >= 2 && !edges.is_empty() && t.chance(1, 12) {
+        let len = 1 + t.below(3);
+        let mut pairs = vec![];
+        for _ in 0..len {
+            let e = edges[t.below(edges.len())];
+            pairs.push(match t.below(3) {
+                0 => (e.0, e.1),
+                1 => (e.1, e.0),
+                _ => {
+                    let a = t.below(n);
+                    let mut b = t.below(n - 1);
+                    if b >= a {
+                        b += 1;
+                    }
+                    if pos[a] < pos[b] { (a, b) } else { (b, a) }
+                }
+            });
+        }
+        batches.push((pairs, kind(t)));
+    }
+    let mut spec = GraphSpec { fns, edges, batches };
     if let Some(cap) = p.root_path_cap {
         // Construction-time exclusion: drop trailing edges until the cap holds.
         loop {
-            let ue = crate::model::user_edges(n, &spec.edges).edges;
+            let ue = crate::model::user_edges(n, &spec.flat_calls()).edges;
             if crate::model::root_path_count(n, &ue) <= cap {
                 break;
             }
@@ -437,6 +482,7 @@ pub fn decode_cfg(t: &mut Tape, p: &Profile, n: usize, intr: bool) -> RunCfg {
         _ => (0..n).filter(|_| t.chance(1, 2)).collect(),
     };
     let coop = p.coop && t.chance(1, 5);
+    let drop_sender = t.chance(1, 4);
     if !api.with {
         rev = false;
         strat = Strat::NonInterruptible;
@@ -457,5 +503,6 @@ pub fn decode_cfg(t: &mut Tape, p: &Profile, n: usize, intr: bool) -> RunCfg {
         abort_after,
         instant: if api.shape.is_stream() { vec![] } else { instant },
         coop,
+        drop_sender,
     }
 }
